@@ -107,7 +107,16 @@ partial def depth : JV → Nat
   | .obj kvs => 1 + kvs.foldl (fun a kv => max a (depth kv.2)) 0
   | _ => 1
 
-def handle (j : Json) : Json :=
+/-- the object kinds of the regenerated table, as the harness names them ("wrap:name") -/
+def tableKinds (T : List Desc) : List String :=
+  T.filterMap (fun d => match d.template with
+    | .struct => some ("kind:" ++ d.name)
+    | .alias => some ("kind:" ++ d.name)
+    | .ref => some ("ref:" ++ d.name)
+    | .maplike => some ("maplike:" ++ d.name)
+    | _ => none)
+
+def handleDoc (j : Json) : Json :=
   let T := KinModel.Gen.descriptors
   let s := parseShape j
   let doc := ofJson (getD j "doc" Json.null)
@@ -128,5 +137,11 @@ def handle (j : Json) : Json :=
     ("spec", jobj [("normal", Json.bool normal), ("first", if normal then toJson doc else Json.null), ("stable", Json.bool true)]),
     ("excl", jstrs excl),
     ("branches", jstrs br)]
+
+def handle (j : Json) : Json :=
+  if getBool j "listKinds" then
+    let ks := tableKinds KinModel.Gen.descriptors
+    jobj [("model", jstrs ks), ("spec", jstrs ks), ("excl", jstrs []), ("branches", jstrs ["table.kinds"])]
+  else handleDoc j
 
 end KinModel.Drv.C03
